@@ -563,12 +563,16 @@ def _last(v):
     return v[-1]
 
 
-AGGS = {'none': None, 'last': _last, 'sum': sum, 'len': len, 'sorted+last': [sorted, _last]}
-ZAGG = [('c', 'none'), ('c', 'last'), ('c', 'sum'), ('c', 'len'), ('c', 'sorted+last'), ('f', 'none'), ('f', 'last'), ('f', 'len')]
+def _keep(v):
+    return v          # an aggregator that hands its argument on: every cell keeps ITS OWN list of z values
+
+
+AGGS = {'none': None, 'last': _last, 'sum': sum, 'len': len, 'sorted+last': [sorted, _last], 'keep': _keep}
+ZAGG = [('c', 'none'), ('c', 'last'), ('c', 'sum'), ('c', 'len'), ('c', 'sorted+last'), ('c', 'keep'), ('f', 'none'), ('f', 'last'), ('f', 'len')]
 # (y column, z column, agg): family x1 runs the whole menu on the string-valued y and three entries on the int-valued y (the labelling
 # of y does not depend on agg); family x2 (the same code after the key tuple is built) runs five
 COMBOS_X1 = [('ys', z, g) for z, g in ZAGG] + [('yi', 'c', 'none'), ('yi', 'c', 'last'), ('yi', 'f', 'last')]
-COMBOS_X2 = [('ys', 'c', 'none'), ('ys', 'c', 'last'), ('ys', 'c', 'sum'), ('ys', 'f', 'last'), ('yi', 'c', 'last')]
+COMBOS_X2 = [('ys', 'c', 'none'), ('ys', 'c', 'last'), ('ys', 'c', 'sum'), ('ys', 'f', 'last'), ('yi', 'c', 'last'), ('ys', 'c', 'keep')]
 
 
 def gen_pivots(rows_x1, rows_x2, wide):
@@ -756,6 +760,36 @@ def check_pivot(case):
                     show(list(T['k'])), sorted(gotv), sorted((kv, lv, zv) for (kv, lv), zv in wantv.items())), op='unpivot', labels='named-like-y-z')
         except Exception as e:
             out.viol('unpivot-raised', "pivot / unpivot with the labels 'lab' / 'val' raised %s: %s" % (type(e).__name__, e), op='unpivot', labels='named-like-y-z')
+    # ---- y LABELS that look like spreadsheet junk ('#1', 'n/a', ' ', '-'): each is a label of its own with its own column
+    if n:
+        out.sub()
+        kcol = list(cols[A]) if case['x'] == 'a' else list(range(n))
+        odd = ['#1', 'n/a', ' ', '-']
+        labs = [odd[(i + case['y'][i]) % 4] for i in range(n)]
+        try:
+            T = dictable(k=[repr(v) for v in kcol], lab=list(labs), val=[10 * i for i in range(n)])
+            PV = T.xyz('k', 'lab', 'val', last)
+            out.call()
+            wantv = {}
+            for kv, lv, zv in zip(T['k'], labs, T['val']):
+                wantv[(kv, lv)] = zv
+            ylabels = [c_ for c_ in PV.keys() if c_ != 'k']
+            if sorted(map(repr, ylabels)) != sorted(map(repr, set(labs))):
+                out.viol('pivot-columns', "xyz('k', 'lab', 'val', last) with the labels %s on k=%s: expected one column per label, got the columns %s" % (
+                    labs, show(list(T['k'])), list(PV.keys())), op='xyz', labels='odd-strings')
+            else:
+                gotc = {(r['k'], l_): r[l_] for r in _rows(PV)[1] for l_ in ylabels if r[l_] is not None}
+                if gotc != wantv:
+                    out.viol('pivot-wrong-cell', "xyz('k', 'lab', 'val', last) with the labels %s on k=%s: cells %s, expected %s" % (labs, show(list(T['k'])), gotc, wantv),
+                             op='xyz', labels='odd-strings')
+                UV = PV.unpivot('k', 'lab', 'val')
+                out.call()
+                gotv = [(r['k'], r['lab'], r['val']) for r in _rows(UV)[1] if r.get('val') is not None]
+                if sorted(gotv) != sorted((kv, lv, zv) for (kv, lv), zv in wantv.items()):
+                    out.viol('unpivot-not-original', "xyz('k', 'lab', 'val', last).unpivot('k', 'lab', 'val') with the labels %s on k=%s: got %s, expected %s" % (
+                        labs, show(list(T['k'])), sorted(gotv), sorted((kv, lv, zv) for (kv, lv), zv in wantv.items())), op='unpivot', labels='odd-strings')
+        except Exception as e:
+            out.viol('unpivot-raised', "pivot / unpivot with the labels %s raised %s: %s" % (labs, type(e).__name__, e), op='unpivot', labels='odd-strings')
     return out
 
 
